@@ -98,6 +98,77 @@ func handlerScenario(ob, sub bool, subs int, subCap int, bound int) *vsched.Scen
 	}
 }
 
+// isolationScenario: two MonadIOs obtained from the same constructor with the same argument are two
+// programs: handlers given to the first (ObserveOn + SubscribeOn) do not route the second, which has
+// none and therefore runs its effect and OnNext on the subscribing goroutine. `first` says whether the
+// second one is constructed before or after the first one is configured.
+func isolationScenario(ctor string, secondEarly bool, bound int) *vsched.Scenario {
+	fam := "isolation-" + ctor
+	mk := func() *fpgo.MonadIODef[interface{}] {
+		switch ctor {
+		case "Just(nil)":
+			return fpgo.MonadIO.Just(nil)
+		case "Just(7)":
+			return fpgo.MonadIO.Just(7)
+		case "JustGenerics(nil)":
+			return fpgo.MonadIOJustGenerics[interface{}](nil)
+		case "JustGenerics(7)":
+			return fpgo.MonadIOJustGenerics[interface{}](7)
+		default: // New
+			return fpgo.MonadIO.New(func() interface{} { return 7 })
+		}
+	}
+	return &vsched.Scenario{
+		Name:  fmt.Sprintf("isolation/%s/secondEarly=%v", ctor, secondEarly),
+		Bound: bound,
+		Body: func() {
+			var m2 *fpgo.MonadIODef[interface{}]
+			if secondEarly {
+				m2 = mk()
+			}
+			m1 := mk()
+			h1 := fpgo.Handler.NewByCh(make(chan func(), 1))
+			h2 := fpgo.Handler.NewByCh(make(chan func(), 1))
+			m1.ObserveOn(h1).SubscribeOn(h2)
+			if !secondEarly {
+				m2 = mk()
+			}
+			vsched.Event("caller", vsched.ThreadName())
+			m2.Subscribe(fpgo.Subscription[interface{}]{OnNext: func(v interface{}) {
+				vsched.Event("onnext2", fmt.Sprint(v), vsched.ThreadName())
+			}})
+			vsched.Event("subscribed2", fmt.Sprint(m2.Eval()))
+		},
+		Check: func(r *vsched.Result) []vsched.Failure {
+			fs := e1.Basic("C11", fam, r, nil)
+			if len(r.Panics) > 0 {
+				return fs
+			}
+			caller := ""
+			seen := false
+			for _, e := range r.Events {
+				switch e.Kind {
+				case "caller":
+					caller = e.Args[0].(string)
+				case "onnext2":
+					if e.Args[1].(string) != caller {
+						fs = append(fs, e1.Fail("C11|"+fam+"|onnext-goroutine", "a MonadIO with no handlers delivered OnNext on %s, not on the subscribing goroutine %s (another instance from the same constructor had handlers set)", e.Args[1], caller))
+					}
+					seen = true
+				case "subscribed2":
+					if !seen {
+						fs = append(fs, e1.Fail("C11|"+fam+"|onnext-sync", "a MonadIO with no handlers had not delivered OnNext when Subscribe returned"))
+					}
+				}
+			}
+			if e1.Count(r, "onnext2") != 1 {
+				fs = append(fs, e1.Fail("C11|"+fam+"|onnext-count", "OnNext invoked %d times", e1.Count(r, "onnext2")))
+			}
+			return fs
+		},
+	}
+}
+
 func scenarios(tier string) []*vsched.Scenario {
 	b := 2
 	if tier == "thorough" {
@@ -110,6 +181,9 @@ func scenarios(tier string) []*vsched.Scenario {
 		}
 	}
 	out = append(out, handlerScenario(true, true, 3, 3, 1))
+	for _, c := range []string{"Just(nil)", "Just(7)", "JustGenerics(nil)", "JustGenerics(7)", "New"} {
+		out = append(out, isolationScenario(c, false, 1), isolationScenario(c, true, 1))
+	}
 	if tier == "thorough" {
 		out = append(out, handlerScenario(true, true, 3, 1, 2), handlerScenario(false, true, 3, 3, 2))
 	}
